@@ -49,8 +49,10 @@ def replay_scale(case):
     exp_fit = [val(p) for p in case["fit"]]
     try:
         st = {}
-        got = t_scale(numpy.array(x), center=case["center"], scale=case["scale"], ddof=case["ddof"], _state=st)
+        xin = numpy.array(x, dtype="float64")
+        got = t_scale(xin, center=case["center"], scale=case["scale"], ddof=case["ddof"], _state=st)
         chk("fit values", close(got, exp_fit), list(got), exp_fit)
+        chk("the fitted-on vector is not written to", xin.tolist() == x, xin.tolist(), x)
         if case["center"]:
             chk("recorded center", close(st["center"], case["st_center"][0] / case["st_center"][1]), st.get("center"))
             chk("zero mean", abs(float(numpy.mean(got))) < 1e-9, float(numpy.mean(got)))
@@ -66,8 +68,10 @@ def replay_scale(case):
             exp = [val(p) for p in f["v"]]
             st2 = dict(st)
             # recorded statistics win over (different) arguments
+            y0 = y.copy()
             got2 = t_scale(y, center=not case["center"], scale=not case["scale"], ddof=1 - case["ddof"], _state=st2)
             chk("recorded state applied unchanged to new data", close(got2, exp), list(got2), exp)
+            chk("the follow-up vector is not written to", y.tolist() == y0.tolist(), y.tolist(), y0.tolist())
             chk("state not modified by reuse", repr(st2) == repr(st))
         # through formulas + spec reuse
         df = pandas.DataFrame({"x": x})
@@ -108,8 +112,10 @@ def replay_poly(case):
     exp_fit = [[val(p) for p in row] for row in case["fit"]]
     try:
         st = {}
-        got = numpy.asarray(poly(numpy.array(x), degree=k, _state=st), dtype=float)
+        xin = numpy.array(x, dtype="float64")
+        got = numpy.asarray(poly(xin, degree=k, _state=st), dtype=float)
         chk("fit values", close(got, exp_fit), got.tolist(), exp_fit)
+        chk("the fitted-on vector is not written to", xin.tolist() == x, xin.tolist(), x)
         chk("orthonormal columns", close(got.T @ got, numpy.eye(k)), (got.T @ got).tolist())
         chk("orthogonal to the constant", close(got.sum(axis=0), numpy.zeros(k)))
         raw = numpy.stack([numpy.power(x, j) for j in range(0, k + 1)], axis=1)
